@@ -97,7 +97,9 @@ TEXT = {
           "(C20_heap_reachable_ok), and the element returned by peek / pop is at least every element of the array (C20_heap_peek_max). "
           "The table mirror never loses or duplicates an element: the backward shift of a removal only moves elements (shiftBack_perm), a "
           "successful insert enumerates the old elements plus the new one and a successful remove the old elements minus one with the "
-          "key asked for (C20_hset_insert_perm, C20_hset_remove_perm; unsuccessful calls change nothing). That every stored element is "
+          "key asked for (C20_hset_insert_perm_any - also when the table grows: extend_perm, every element finds a free slot of the doubled table - and "
+          "C20_hset_remove_perm; unsuccessful calls change nothing; the slot array is non-empty in every reachable state, "
+          "C20_hset_reachable_size). That every stored element is "
           "reachable by its probe sequence (the probe-chain invariant) is not proved (correspondence only).",
   "design_ref": "5.20",
   "note": "proof covers the reference semantics, the heap mirror (multiset and heap order for every history) and basic lemmas of the table mirror; the refinement mirror -> reference is checked per history (20k histories per quick run with forced collisions, wrap-around, growth), not proved; elements abstracted to (identity, reported hash)",
